@@ -608,3 +608,130 @@ def fold_union_call(repo: Repo) -> dict | None:
         return None
     except (TypeError, KeyError, IndexError, ValueError, AttributeError):
         return None
+
+
+def fold_is_eof(repo: Repo) -> dict | None:
+    """_is_eof(stream): True exactly at the end of the stream, and the stream is where it was in both cases."""
+    fi = repo.func_opt("types/base.py", "_is_eof")
+    if fi is None:
+        return None
+    from .codecfold import Stream
+
+    out: dict = {"cases": 0, "bad": []}
+    try:
+        for data, pos in ((b"", 0), (b"abc", 3), (b"abc", 0), (b"abc", 2), (b"x" * 9, 8)):
+            st = Stream(data)
+            st.pos = pos
+            r = Evaluator({}, steps=500).call_user(UserFunc(fi.node), [st.sym()], {})
+            out["cases"] += 1
+            want = pos >= len(data)
+            if r is not want or st.pos != pos:
+                out["bad"].append((len(data), pos, r, st.pos))
+        return out
+    except Refused:
+        return None
+    except Raised as e:
+        out["bad"].append(("raised", str(e), None, None))
+        return out
+
+
+def fold_len(repo: Repo) -> dict | None:
+    """MetaType.__len__: the size for a fixed-size type, TypeError for a dynamic one."""
+    fi = repo.func("types/base.py", "MetaType.__len__")
+    base = Sym("BaseType")
+    out: dict = {"cases": 0, "bad": []}
+    try:
+        for label, cls, want in (("fixed size 12", Sym("T", {"size": 12, "dynamic": False}), 12), ("size 0", Sym("Z", {"size": 0, "dynamic": False}), 0),
+                                 ("dynamic", Sym("D", {"size": None, "dynamic": True}), "TypeError"), ("the BaseType placeholder itself", base, 0)):
+            try:
+                got: Any = Evaluator({"BaseType": base}, steps=200).call_user(UserFunc(fi.node), [cls], {})
+            except Raised as e:
+                got = str(e).split("(")[0].split(":")[0]
+            out["cases"] += 1
+            if got != want:
+                out["bad"].append((label, got, want))
+        return out
+    except Refused:
+        return None
+
+
+class _Ptr(Sym):
+    """A pointer value: compares with integers by its address."""
+
+    def __init__(self, addr: int, attrs: dict):
+        super().__init__(f"ptr@{addr}", attrs)
+        self.addr = addr
+
+    def __eq__(self, other: object) -> bool:
+        if isinstance(other, int) and not isinstance(other, bool):
+            return self.addr == other
+        return other is self
+
+    __hash__ = Sym.__hash__
+
+
+def fold_dereference(repo: Repo) -> dict | None:
+    """Pointer.dereference over the target kinds: reads the target at the absolute address through the remembered stream, restores the stream
+    position, caches the value (a second call does not touch the stream), char targets are NUL-terminated strings, void / null / stream-less
+    pointers do not read."""
+    fi = repo.func("types/pointer.py", "Pointer.dereference")
+    void, char = Sym("Void"), Sym("Char")
+    out: dict = {"cases": 0, "bad": []}
+    try:
+        methods = {n_: UserFunc(f_.node) for n_, f_ in repo.cls("Pointer").methods.items() if n_ != "dereference"}
+        for label, kind, addr, has_stream, start, value in (
+                ("struct target", "other", 6, True, 40, "<value>"), ("char target", "char", 6, True, 40, "<value>"), ("void target", "void", 6, True, 40, None),
+                ("null pointer", "other", 0, True, 40, None), ("no stream", "other", 6, False, 40, None),
+                ("stream already at the address", "other", 6, True, 6, "<value>"), ("target value 0 (falsy)", "other", 6, True, 40, 0),
+                ("empty string target (falsy)", "char", 6, True, 40, b"")):
+            log: list = []
+            state = {"pos": start}
+
+            def seek(p, whence=0, state=state, log=log):
+                state["pos"] = int(getattr(p, "addr", p)) if whence == 0 else state["pos"] + int(p)
+                log.append(("seek", state["pos"]))
+
+            stream = Sym("stream", {}, {"tell": Host(lambda state=state: state["pos"]), "seek": Host(seek)})
+
+            def reader(name, log=log, state=state):
+                def _r(s, ctx=None, value=value):
+                    log.append((name, state["pos"], s is stream, ctx))
+                    state["pos"] += 5
+                    return value
+                return Host(_r)
+
+            target = Sym("target", {"kind": kind}, {"_read": reader("_read"), "_read_0": reader("_read_0")})
+            ptr = _Ptr(addr, {"_value": None, "_stream": stream if has_stream else None, "_context": "<ctx>", "type": target})
+            ptr.methods.update(methods)
+
+            def issub(t, k):
+                if k is void:
+                    return t.attrs["kind"] == "void"
+                if k is char:
+                    return t.attrs["kind"] == "char"
+                raise Refused("issubclass against another class")
+
+            env = {"issubclass": Host(issub), "Void": void, "Char": char}
+            results = []
+            for _ in range(2):
+                try:
+                    results.append(Evaluator(env, steps=500).call_user(UserFunc(fi.node), [ptr], {}))
+                except Raised as e:
+                    results.append("raise " + str(e).split("(")[0])
+            out["cases"] += 1
+            reads = [x for x in log if x[0] != "seek"]
+            if addr == 0 or not has_stream:
+                want_results, want_reads = ["raise NullPointerDereference"] * 2, []
+            elif kind == "void":
+                want_results, want_reads = [None, None], []
+            else:
+                slot = "_read_0" if kind == "char" else "_read"
+                want_results = [value] * 2
+                want_reads = [(slot, 6, True, "<ctx>")]  # read once, at the address, through the remembered stream; the second call uses the cache
+            if results != want_results or reads != want_reads or state["pos"] != start:
+                out["bad"].append((label, results, reads, state["pos"], want_results, want_reads, start))
+        return out
+    except Refused:
+        return None
+    except (TypeError, KeyError, IndexError, ValueError, AttributeError):
+        return None
